@@ -627,7 +627,14 @@ def mutate(spec, rng, class_names=(), key_pool=()):
             del m[1][i]
             what = 'drop-key'
         elif c < 0.45:
-            m[1].append(copy.deepcopy(m[1][i]))
+            dup = copy.deepcopy(m[1][i])
+            if rng.random() < 0.6:
+                # same key, another value: which occurrence counts?
+                dup[1] = rng.choice(SCALAR_SWAPS)
+            if rng.random() < 0.5:
+                m[1].append(dup)
+            else:
+                m[1].insert(rng.randint(0, len(m[1])), dup)
             what = 'duplicate-key'
         elif c < 0.65 and m[1][i][0][0] == 's':
             k = m[1][i][0][2]
@@ -683,8 +690,13 @@ def mutate(spec, rng, class_names=(), key_pool=()):
                          N.s_str('complex')])
             what = 'complex-key'
         elif c < 0.7:
+            # merged pairs never pass through the loader's own processing:
+            # give them the names of real attributes and arbitrary scalars
+            names = [rng.choice(list(key_pool) or ['merged_key'])
+                     for _ in range(rng.randint(1, 2))]
             m[1].append([['s', S.TAG_MERGE, '<<'],
-                         ['map', [[N.s_str('merged_key'), N.s_int(1)]],
+                         ['map', [[N.s_str(nm), rng.choice(SCALAR_SWAPS)]
+                                  for nm in dict.fromkeys(names)],
                           S.TAG_MAP]])
             what = 'merge-key'
         else:
